@@ -73,6 +73,16 @@ class ObsSocket:
           'invalid' -> write bytes that are not JSON of an ObservableState, close
           'early'   -> accept and close without writing
           'refused' -> nothing listens on the path
+
+    Two orthogonal knobs make every mode SLOW (the exporter sits in read_to_end
+    on the observation connection meanwhile):
+      delay: seconds to wait between accept and the answer (a slow daemon; the
+             client is patient);
+      hold:  a callable run between accept and the answer.  The answer is held
+             back until it returns - this is how "the client resets while its
+             response is pending" is made deterministic: the callable performs
+             the reset and returns once the kernel has delivered it (no sleep
+             that races with the exporter).
     """
 
     def __init__(self, path, payload):
@@ -81,7 +91,9 @@ class ObsSocket:
         self.lst = None
         self.mode = "valid"
         self.served = 0
-        self.hook = None        # callable run after accept, before answering
+        self.hook = None        # callable run after accept, before answering (old name of `hold`)
+        self.hold = None        # callable run after accept; the answer waits for its return
+        self.delay = 0.0        # seconds between accept and the answer
         self.set_mode("valid")
 
     def _listen(self):
@@ -104,8 +116,9 @@ class ObsSocket:
         except FileNotFoundError:
             pass
 
-    def set_mode(self, mode, payload=None):
+    def set_mode(self, mode, payload=None, delay=0.0):
         self.mode = mode
+        self.delay = delay
         if payload is not None:
             self.payload = payload
         if mode == "refused":
@@ -126,6 +139,10 @@ class ObsSocket:
         try:
             if self.hook:
                 self.hook()
+            if self.hold:
+                self.hold()
+            if self.delay:
+                time.sleep(self.delay)
             c.setblocking(True)
             if self.mode == "valid":
                 c.sendall(self.payload)
@@ -218,6 +235,14 @@ class Exporter:
     def exit_code(self):
         return self.proc.poll()
 
+    def wait_exit(self, t=1.0):
+        """Exit status if the process ends within t seconds (a dying process may still hold
+        its listener for a moment), else None."""
+        try:
+            return self.proc.wait(timeout=t)
+        except subprocess.TimeoutExpired:
+            return None
+
     def cpu_ticks(self):
         try:
             with open("/proc/%d/stat" % self.proc.pid) as f:
@@ -255,15 +280,20 @@ class Exporter:
         s.connect(("127.0.0.1", self.port))
         return s
 
-    def pump(self, sock, deadline, want_response=True):
+    def pump(self, sock, deadline, want_response=True, until_eof=False):
         """Waits for the server's reaction on `sock` while serving the observation socket.
-        Returns ('status', code, raw) | ('closed', None, raw) | ('none', None, raw)."""
+        Returns ('status', code, raw) | ('closed', None, raw) | ('none', None, raw).
+        until_eof: keep reading after a complete response until the exporter closes the
+        connection (it always does), so that EVERYTHING it wrote is returned - e.g. a second
+        response glued to the first; when the deadline passes first, what arrived is returned."""
         data = b""
         t_end = time.time() + deadline
         sock.setblocking(False)
         while True:
             left = t_end - time.time()
             if left <= 0:
+                if until_eof and data:
+                    break
                 return ("none", None, data)
             rl = [sock] + self.obs.fileno_list()
             r, _, _ = select.select(rl, [], [], min(left, 0.05))
@@ -279,7 +309,7 @@ class Exporter:
                 if not chunk:
                     break
                 data += chunk
-                if complete_response(data):
+                if complete_response(data) and not until_eof:
                     break
             elif not r and self.exit_code() is not None and not data:
                 # process gone and nothing buffered: one last non-blocking read decides
@@ -321,11 +351,95 @@ def rst_close(sock):
     sock.close()
 
 
+def peer_socket_present(server_port, client_port):
+    """True / False: the server-side socket of the connection 127.0.0.1:client_port ->
+    127.0.0.1:server_port is still in the kernel's table; None when /proc cannot tell."""
+    loc = "0100007F:%04X" % server_port
+    rem = "0100007F:%04X" % client_port
+    try:
+        with open("/proc/net/tcp") as f:
+            for line in f:
+                parts = line.split()
+                if len(parts) > 3 and parts[1] == loc and parts[2] == rem:
+                    return True
+        return False
+    except OSError:
+        return None
+
+
+def rst_close_confirmed(sock, server_port, deadline=2.0):
+    """Resets the connection (SO_LINGER 0 -> RST, not FIN) and returns once the kernel has
+    delivered the RST to the server side: a reset socket is unhashed at once, i.e. it
+    disappears from /proc/net/tcp.  Returns True when that was seen before the deadline."""
+    try:
+        client_port = sock.getsockname()[1]
+    except OSError:
+        client_port = None
+    rst_close(sock)
+    if client_port is None:
+        time.sleep(0.05)
+        return False
+    t_end = time.time() + deadline
+    while True:
+        st = peer_socket_present(server_port, client_port)
+        if st is False:
+            return True
+        if st is None:
+            time.sleep(0.05)        # no /proc: loopback delivers the RST inside close() anyway
+            return False
+        if time.time() >= t_end:
+            return False
+        time.sleep(0.002)
+
+
 GET_REQ = b"GET /metrics HTTP/1.1\r\nHost: localhost\r\nUser-Agent: sv\r\n\r\n"
 POST_REQ = b"POST /metrics HTTP/1.1\r\nHost: localhost\r\nContent-Length: 0\r\n\r\n"
 
 
-def http_get(exp, deadline=5.0):
+def get_then_reset_while_pending(exp, request=None, deadline=3.0):
+    """Client behaviour "complete GET, then reset while the reply is pending".
+
+    The observation socket (whatever its mode: valid / trunc / invalid / early, i.e. the
+    200 path or the 500 path) accepts the exporter's connection and HOLDS its answer; at
+    that moment the exporter has read the whole request and sits in handler(); the client
+    connection is reset and the reset is confirmed delivered; only then does the observation
+    socket answer, so the exporter's write_all meets a reset connection.
+    Not available for mode 'refused' (nothing to hold).
+    Returns (held, confirmed): the answer was held / the reset was seen delivered."""
+    if exp.obs.lst is None:
+        raise ValueError("the observation socket must listen (mode != 'refused')")
+    state = {"held": False, "confirmed": False}
+    try:
+        s = exp.connect()
+    except OSError:
+        return (False, False)
+    box = [s]
+
+    def hold():
+        state["held"] = True
+        state["confirmed"] = rst_close_confirmed(box.pop(), exp.port)
+
+    try:
+        s.sendall(request or GET_REQ)
+        exp.obs.hold = hold
+        t_end = time.time() + deadline
+        while time.time() < t_end and not state["held"] and exp.exit_code() is None:
+            r, _, _ = select.select([exp.obs.lst], [], [], 0.05)
+            if r:
+                exp.obs.serve_one()
+    except OSError:
+        pass
+    finally:
+        exp.obs.hold = None
+        if box:                       # never held (the exporter did not call its handler): reset anyway
+            try:
+                rst_close_confirmed(box.pop(), exp.port, 0.5)
+            except OSError:
+                pass
+    return (state["held"], state["confirmed"])
+
+
+def http_get(exp, deadline=5.0, until_eof=False):
     """One well-formed request against a running exporter; returns (kind, code, raw)."""
     try:
         s = exp.connect()
@@ -333,7 +447,7 @@ def http_get(exp, deadline=5.0):
         return ("none", None, b"")
     try:
         s.sendall(GET_REQ)
-        return exp.pump(s, deadline)
+        return exp.pump(s, deadline, until_eof=until_eof)
     except OSError:
         return ("closed", None, b"")
     finally:
